@@ -43,6 +43,9 @@ def plan(tier, seed):
 
 
 def line_level(row, M, indent=""):
+    if not isinstance(getattr(GherkinLine, "table_cells", None), property):
+        M.inconc("GherkinLine.table_cells is no longer a property: the line-level enumeration cannot observe the splitter")
+        return
     phys = indent + row
     want = refcells.ref_cells(phys)
     M.count("rows_line_level")
